@@ -50,6 +50,9 @@ for d in sorted(glob.glob("/tmp/seed_C??")):
         "detection": [{"check": r["check"], "tier": "quick", "exit": r["exit"], "signatures": [s for s in r["signatures"].split("|") if s], "wall_s_incl_rebuild": r["secs"],
                        "how": "git -C /repo apply seeded/%s/patch.diff; bin/check %s quick; git -C /repo checkout -- ." % (sid, r["check"])} for r in last.values()],
     }
+    if len(runs) > len(last):
+        meta["detection_history"] = [{"check": r["check"], "exit": r["exit"], "signatures": [s for s in r["signatures"].split("|") if s][:4]} for r in runs]
+        meta["note"] = "earlier runs with exit 0 are from before the check was strengthened against this change (see DESIGN.md 8.7)"
     json.dump(meta, open(f"{out}/meta.json", "w"), indent=1)
     rows.append((sid, [(r["check"], r["exit"]) for r in last.values()]))
 for r in rows:
